@@ -368,7 +368,10 @@ def _app_request(ctx: Ctx, R: RecvModel, E):
                  "requesting peer")
         return
     it = loops[0]
-    if ast.unparse(it.ast.iter).replace(" ", "") != f"self._peer_routes[{realm}].items()":
+    it_expr = it.ast.iter
+    while isinstance(it_expr, ast.Call) and A.call_name(it_expr) in ("list", "tuple", "sorted") and it_expr.args:
+        it_expr = it_expr.args[0]      # a snapshot of the table is the table
+    if ast.unparse(it_expr).replace(" ", "") != f"self._peer_routes[{realm}].items()":
         ctx.fail(cons + "#table", g.loc(it), "applications are not looked up in the route table of "
                  "the request's realm")
     tg = it.ast.target
